@@ -12,7 +12,7 @@ OPTS = {'quick': {'selfcheck_mod': 150, 'budget_s': 280}, 'thorough': {'selfchec
 STEP_LIMIT = 1_500_000
 BOUNDS = {
     'quick': 'knowledge base = 21 fixed clauses (facts p/1 q/1 r/2 s/0 n/1 l/1 with two symbolic integers among the data; member/2, len/2, app/3, eq/2) plus one rule t($X) :- BODY and '
-             'optionally the fact t(z); BODY = every conjunction / disjunction / mixed shape of up to 3 goals (6 shapes) over a 7-goal menu (calls p q r, `=` with an atom and between variables, `<`) and all shapes of up to 2 goals over 14 goals (adds arithmetic `$Y = $X + 1`, facts with variables inside box(..) and list patterns, duplicate facts, a fact followed by a rule for the same goal, eq($Y, 7), a 3-ary fact); queries t($X) and t(b); up to 8 answers compared one by one (resolved query term up to renaming of unbound variables), then exhaustion; '
+             'optionally the fact t(z); BODY = every conjunction / disjunction / mixed shape of up to 3 goals (6 shapes) over a 7-goal menu (calls p q r, `=` with an atom and between variables, `<`) and all shapes of up to 2 goals over 14 goals (adds arithmetic `$Y = $X + 1`, facts with variables inside box(..) and list patterns, list patterns with a tail variable against closed lists, a fact `u($_)` followed by `u(5)`, facts made of `$_` only, duplicate facts, a fact followed by a rule for the same goal, eq($Y, 7), a 3-ary fact); 108 four-goal bodies `(G1 ; G2, G3), G4` in which the body-local variables first occur in a different order in each alternative; queries t($X) and t(b), and 16 queries asked directly of the base predicates with a variable in several argument positions, `$_`, list and compound arguments; up to 8 answers compared one by one (resolved query term up to renaming of unbound variables), then exhaustion; '
              'solve_all strings for a subset; the same programs from source text through parse_rule for 2-goal bodies',
     'thorough': 'all 6 shapes of up to 3 goals over an 18-goal menu (adds member, len, app, arithmetic and the facts with inner variables), queries also t($_) and a two-variable wrapper, source-text family for all shapes',
 }
@@ -27,7 +27,7 @@ MENU_T = MENU_Q + [gc('len', L(A('a'), X), Y), gc('app', L(X), L(A('z')), Y), gb
 def cases(tier, seed):
     out = []
     menu = (MENU_Q[:6] + MENU_Q[7:9]) if tier == 'quick' else MENU_T
-    extra_menu = [gc('h', X), gc('d', X), gc('d', A('a')), gc('eq', Y, I(7)), gc('pr', X, Y, Z), gc('h', Y)]
+    extra_menu = [gc('h', X), gc('d', X), gc('d', A('a')), gc('eq', Y, I(7)), gc('pr', X, Y, Z), gc('h', Y), gc('l', L(X, tail=Y)), gc('l', L(Y, X, tail=Z)), gc('u', Y), gb('equal', Y, I(5)), gc('any', Y), gc('any2', X, Y), gc('u', X)]
     if tier == 'quick':
         bodies = P.bodies(menu[:7], 3) + [b for b in P.bodies(menu + extra_menu, 2) if any(g in extra_menu or g == menu[7] for g in (b[1] if b[0] in ('gand', 'gor') else (b,)))]
     else:
@@ -39,6 +39,21 @@ def cases(tier, seed):
             for q in (C('t', X), C('t', A('b'))):
                 if extra and q[1][1][0] != 'var': continue
                 out.append({'id': '%s ?- %s|%d' % (' '.join(P.ctext(c) for c in cl), P.ttext(q), len(out)), 'fam': 'values', 'clauses': PC.jsonable(tuple(cl)), 'query': PC.jsonable(q)})
+    # variables that are local to the body and first occur in a different order in each alternative of a disjunction, used after it
+    W_ = V('W')
+    for g1 in (U(Y, I(1)), gc('q', Y)):
+        for g2 in (U(Z, I(9)), gc('p', Z)):
+            for g3 in (U(Y, I(2)), gc('q', Y), gc('r', Z, Y)):
+                for g4 in (U(X, Y), U(X, C('k', Y, Z)), gc('eq', X, Y)):
+                    for b in (AND(OR(g1, AND(g2, g3)), g4), AND(OR(AND(g2, g3), g1), g4), AND(gc('p', W_), OR(g1, AND(g2, g3)), g4)):
+                        cl = [(C('t', X), b)]
+                        out.append({'id': '%s ?- t($X)|%d' % (P.ctext(cl[0]), len(out)), 'fam': 'values', 'clauses': PC.jsonable(tuple(cl)), 'query': PC.jsonable(C('t', X))})
+    # queries with a variable in several argument positions, with `$_`, with lists and compound arguments; asked directly of the base predicates
+    dbl = [(C('r2', A('a'), A('a')), None), (C('r2', A('a'), A('b')), None), (C('r2', SIv(), ('symint', 'J')), None), (C('r2', X, C('k', X)), None)]
+    for q in (C('r2', X, X), C('r2', X, Y), C('r2', ('anon',), X), C('r2', X, C('k', Y)), C('r2', C('k', X), C('k', C('k', X))), C('pr', X, X, Z), C('pr', X, Y, C('k', X, Y)),
+              C('app', X, X, L(A('a'), A('a'))), C('app', X, Y, L(A('a'), A('b'))), C('member', X, L(A('a'), X, A('b'))), C('eq', C('k', X, Y), C('k', Y, A('a'))), C('r', X, X),
+              C('len', L(X, X), Y), C('h', L(X, tail=X)), C('h', C('box', C('box', X))), C('l', L(X, tail=L(Y)))):
+        out.append({'id': 'query %s|%d' % (P.ttext(q), len(out)), 'fam': 'values', 'clauses': PC.jsonable(tuple(dbl)), 'query': PC.jsonable(q)})
     # recursive schemas over finite data
     rec = [(C('t', X), gc('member', X, L(A('a'), SIv(), A('a')))), (C('t', X), gc('len', L(A('a'), A('b'), A('c')), X)),
            (C('t', X), gc('app', X, Y, L(A('a'), A('b')))), (C('t', X), AND(gc('app', Y, L(X), L(A('a'), A('b'), A('c'))))),
